@@ -299,10 +299,9 @@ def _run_one(args):
         return (kind, mid, pid, "skipped", "anchor text not present in this tree")
     try:
         rep, _ = run_property(pid, "quick", root, overlay=ov, quiet=True)
-        for rid, r in rep.rules.items():
-            if r["instances"] < r["floor"]:
-                raise AE(f"rule {rid} below floor")
         new = rep.new_findings()
+        if not new and rep.below_floor():
+            raise AE(f"rule {rep.below_floor()[0]} below floor")
     except AE as e:
         if kind == "fire":
             return (kind, mid, pid, "error", f"ANALYSIS-ERROR {str(e)[:200]}")
@@ -342,10 +341,9 @@ def _run_seed(args):
         return ("seed", sid, pid, "skipped", "patch does not apply to this tree")
     try:
         rep, _ = run_property(pid, "quick", root, overlay=ov, quiet=True)
-        for rid, r in rep.rules.items():
-            if r["instances"] < r["floor"]:
-                raise AE(f"rule {rid} below floor")
         new = rep.new_findings()
+        if not new and rep.below_floor():
+            raise AE(f"rule {rep.below_floor()[0]} below floor")
         got = "violation" if new else "pass"
         msg = f"{new[0].rule}: {new[0].what[:150]}" if new else ""
     except AE as e:
